@@ -508,7 +508,16 @@ def enumerated(tier, seed):
            D("nest", ("fn", [("n", "int")], ("fn", [], "int"), [("if", ("bin", ">", V("n"), I(0)), [D("inner", ("selfcall", [("bin", "-", V("n"), I(1))]))], None),
                                                               ("return", ("fn", [], "int", [("return", ("bin", "+", V("base"), V("n")))]))])),
            D("nf", ("call", V("nest"), [I(2)])), ("print", ("call", V("nf"), [])), D("base", I(100)), ("print", ("call", V("nf"), []))]
-    return [{"stmts": rec, "labels": ["fixed:closure-that-calls-itself-then-uses-its-captures"], "nt": True},
+    # a variable that closures have captured is EXPORTED under its own name afterwards ("declare first, export at the bottom"): it
+    # stays one variable for the owner and the closures
+    late = [D("total", I(0)),
+            D("add", ("fn", [("n", "int")], "int", [D("total", ("bin", "+", V("total"), V("n")), ("modify",)), ("return", V("total"))])),
+            D("cur", ("fn", [], "int", [("return", V("total"))])),
+            ("decl", "total", "int", V("total"), ("export",)), ("decl", "add", ("fn", ["int"], "int"), V("add"), ("export",)),
+            ("print", ("call", V("add"), [I(5)])), ("print", V("total")), D("total", I(100)), ("print", ("call", V("cur"), [])),
+            ("print", ("call", V("add"), [I(1)])), ("print", V("total")), ("opassign", V("total"), "+=", I(2)), ("print", ("call", V("cur"), []))]
+    return [{"stmts": late, "labels": ["fixed:captured-variable-exported-afterwards"], "nt": True},
+            {"stmts": rec, "labels": ["fixed:closure-that-calls-itself-then-uses-its-captures"], "nt": True},
             {"stmts": pm, "labels": ["fixed:parameter-named-like-the-modified-variable"], "nt": True},
             {"stmts": pm_factory, "labels": ["fixed:parameter-of-the-factory-is-the-captured-variable"], "nt": True},
             {"stmts": late, "labels": ["feat:use-before-local-shadow"], "nt": True},
